@@ -190,6 +190,8 @@ func main() {
 	for k, n := range rn.Stat {
 		o.Extra[k] = n
 	}
+	rn.BigElementChecks()
+	rn.SizeFieldBoundaryCases()
 	rn.Recheck()
 	o.Extra["coverage_matrix"] = rn.Matrix
 	o.Finish("From GocqlV Require Import Lib.Base C12.Model C12.Spec C12.Corr C02.Corr.", "C02.Corr.case", "C02.Corr.run")
